@@ -148,6 +148,10 @@ def c06_monitor(case, frames):
         if not got:
             return ("UpdateBarPriority(%s, %s) returned at event %d but no fix request for it reached the heap manager before the next "
                     "ordered iteration (event %d)" % (b, p, ret, nxt), "priority-change-never-reached-heap")
+    # "a bar that replaces a finished predecessor takes that predecessor's place" (shared with C17)
+    q = c17_monitor(case, frames)
+    if q is not None and q[1] == "successor-priority":
+        return q
     # rows of every frame are the flushed bars in reverse flush order
     for c in cycles(case):
         if c["out"] is None or c["frame"] is None:
